@@ -1,8 +1,8 @@
 //! Defines parser functions related to character input.
 
 use winnow::{
-    ascii::line_ending,
-    combinator::{alt, delimited, eof, trace},
+    ascii::{line_ending, space1},
+    combinator::{alt, delimited, eof, repeat, trace},
     error::ParserError,
     stream::{AsChar, Compare, Stream, StreamIsPartial},
     token::{one_of, take_till, take_while},
@@ -54,6 +54,23 @@ where
     E: ParserError<I>,
 {
     trace("character::newlines", take_while(0.., b"\r\n")).parse_next(input)
+}
+
+/// Consume all blank lines, including the lines only with whitespaces.
+pub fn blank_lines<I, E>(input: &mut I) -> winnow::Result<(), E>
+where
+    I: Stream + StreamIsPartial + winnow::stream::Compare<&'static str>,
+    <I as Stream>::Token: AsChar + Clone,
+    E: ParserError<I>,
+{
+    trace(
+        "character::blank_lines",
+        repeat(
+            0..,
+            alt((line_ending.void(), (space1, line_ending_or_eof).void())),
+        ),
+    )
+    .parse_next(input)
 }
 
 /// Parses unnested string in paren.
